@@ -168,7 +168,7 @@ func (r *Router) match(method, path string) (rt *Route, ps Params) {
 	if r.enableCaching && r.cachedRoutes != nil {
 		route, ok := r.cachedRoutes.Get(method + path)
 		if ok {
-			return route, route.params
+			return route, copyParams(route.params)
 		}
 	}
 
